@@ -14,7 +14,7 @@ from .. import common as C
 from . import c01_gen as G
 
 C.CACHE = os.environ.get("HAWKVERIF_CACHE", C.CACHE)
-EXTRACTORS = ["fnc_dispatch.py", "loops.py", "div_sites.py", "flag_sites.py"]
+EXTRACTORS = ["fnc_dispatch.py", "loops.py", "div_sites.py", "flag_sites.py", "stack_sites.py"]
 SOFT_MS, HARD_MS = 1500, 6000
 NCPU = max(2, min(16, os.cpu_count() or 4))
 ENV = dict(C.ASAN_ENV)
@@ -27,12 +27,12 @@ VIOL_CLASSES = ("CRASH", "WEDGE", "VIOL_ERRNUM0", "VIOL_NOMSG")
 # cases
 # ------------------------------------------------------------------------------------------------------------------
 def make_cases(seed, n, prefix):
-    """deterministic batch: 55% grammar programs, 15% targeted templates, 30% byte/token mutations of valid programs"""
+    """deterministic batch: 50% grammar programs, 20% targeted templates, 30% byte/token mutations of valid programs"""
     rng = random.Random(seed)
     out = []
     for k in range(n):
         q = rng.random()
-        if q < 0.55:
+        if q < 0.50:
             g = G.Gen(rng)
             src = g.program().encode("utf-8")
             kind, feats = "grammar", g.feat
@@ -92,7 +92,7 @@ def run_harness(exe, cases, scratch, soft=SOFT_MS, hard=HARD_MS):
     return res, rc, err.decode(errors="replace")[-2000:]
 
 
-LEAF_RE = re.compile(r"^(make_\w+_val|hawk_rtx_make\w*val\w*|hawk_copy_\w+|hawk_comp_\w+|hawk_\w?ecs_\w+|hawk_rtx_refupval|hawk_rtx_refdownval|hawk_rtx_freeval|hawk_rtx_freemem|hawk_gem_\w+)$")
+LEAF_RE = re.compile(r"^(make_\w+_val|hawk_rtx_make\w*val\w*|hawk_copy_\w+|hawk_comp_\w+|hawk_\w?ecs_\w+|hawk_rtx_refupval|hawk_rtx_refdownval|hawk_rtx_freeval\w*|hawk_rtx_getval\w+|hawk_rtx_valto\w+|hawk_rtx_freemem|hawk_gem_\w+)$")
 FRAME_RE = re.compile(r"#\d+ 0x[0-9a-f]+ in (\S+) (\S+?):(\d+)")
 
 
@@ -112,7 +112,7 @@ def signature(r):
                 first = first or fn
                 base = os.path.basename(path)
                 # leaf utilities (string copy/compare, buffer append, value constructors) say nothing about the site: take their caller
-                if base.startswith("utl") or base.endswith("-imp.h") or base in ("ecs.c", "mem.c", "gem.c") or LEAF_RE.match(fn):
+                if base.startswith("utl") or base.endswith(".h") or base in ("ecs.c", "mem.c", "gem.c") or LEAF_RE.match(fn):
                     continue
                 return "crash:" + fn
         if first:
@@ -124,6 +124,12 @@ def signature(r):
             return "crash:assert:" + (m2.group(1) if m2 else "?")
         return "crash:" + (r.get("sig") and "sig" + r["sig"] or "exit" + r.get("exit", "?"))
     if cls == "WEDGE":
+        # the site: first frame of the sampled stack that belongs to the interpreter proper (not to a library layer below it)
+        for fn, path, ln in FRAME_RE.findall(r.get("stderr", "")):
+            base = os.path.basename(path)
+            if ("/lib/" in path or "/bin/" in path) and (base in ("run.c", "fnc.c", "misc.c", "rec.c", "rio.c", "val.c", "std.c", "parse.c", "hawk.c", "arr.c")
+                                                         or base.startswith("mod-")) and not LEAF_RE.match(fn) and fn != "on_usr2":
+                return "wedge:" + fn
         return "wedge:" + r.get("phase", "?")
     if cls == "VIOL_ERRNUM0":
         return "errnum0:" + r.get("stage", "?")
@@ -475,7 +481,7 @@ def correspondence(ctx, exe):
 
 
 # ------------------------------------------------------------------------------------------------------------------
-GEN_OUT = {"fnc_dispatch.py": "FncDispatch.lean", "loops.py": "Loops.lean", "div_sites.py": "DivSites.lean", "flag_sites.py": "FlagSites.lean"}
+GEN_OUT = {"fnc_dispatch.py": "FncDispatch.lean", "loops.py": "Loops.lean", "div_sites.py": "DivSites.lean", "flag_sites.py": "FlagSites.lean", "stack_sites.py": "StackSites.lean"}
 
 
 def extract_key(e):
@@ -551,6 +557,11 @@ def table_findings(ctx):
         fl = open(os.path.join(p, "FlagSites.lean")).read()
         for m in re.finditer(r'⟨"([^"]+)", "([^"]+)", (\d+), \.(intSign|fltSign)⟩', fl):
             notes.append("flag-site %s:%s %s stores -1/0/1 into gbl.ignorecase, which indexes two-element arrays" % (m.group(1), m.group(3), m.group(2)))
+        for m in re.finditer(r'⟨"(\w+)", (\d+), "([^"]*)", \d+, "([^"]*)", \[(.*?)\], (\d+), \[(.*?)\]⟩$', open(os.path.join(p, "StackSites.lean")).read(), re.M):
+            if m.group(1) == "hawk_rtx_evalcall" and ('"!' in m.group(5) or m.group(5).count("⟨") != 1):
+                notes.append("stack-site run.c:%s %s: the padding for omitted arguments is reserved under %s but pushed whenever fun->nargs > call->nargs" % (m.group(2), m.group(1), m.group(5)))
+            elif m.group(3) == "":
+                notes.append("stack-site run.c:%s %s: push without a preceding availability test" % (m.group(2), m.group(1)))
     except OSError:
         pass
     return notes
@@ -603,7 +614,7 @@ def run(ctx):
     # ---- campaign ----
     per = 120
     deadline = max(time.time() + 12, t0 + 52) if ctx.tier == "quick" else t0 + 17 * 60
-    nbatch_cap = 400 if ctx.tier == "quick" else 6000
+    nbatch_cap = 520 if ctx.tier == "quick" else 6000
     samples, lost_total, secs = [], 0, []
     submitted = 0
     with ProcessPoolExecutor(NCPU) as ex:
@@ -720,14 +731,14 @@ def run(ctx):
                builtins_total=len(G.BUILTINS), guard_probes=cdist, guard_probe_differences=len(diffs), violation_signatures={k: len(v) for k, v in viol.items()},
                batches=submitted, lost_results=lost_total, feature_uses=fdist if ctx.tier == "thorough" else "(thorough tier only)")
     return C.finish(ctx, [proof], evaluations, len(nontriv),
-                    "programs = corpus + seeded batches of 120 (55%% grammar programs over every statement/operator/value type/builtin/side-effect-free module "
-                    "function with mismatched argument types, 15%% templates aimed at the anchored sites with edge operands, 30%% byte/token mutations) x 10 console "
+                    "programs = corpus + seeded batches of 120 (50%% grammar programs over every statement/operator/value type/builtin/side-effect-free module "
+                    "function with mismatched argument types, 20%% templates aimed at the anchored sites with edge operands (incl. stack-pressure and failing write-back families), 30%% byte/token mutations) x 10 console "
                     "input shapes x 5 trait sets, run in-process under ASan+UBSan+asserts with a statement heartbeat and halt-then-SIGKILL watchdog; oracle = "
                     "signal / sanitizer report / abort / failure with errnum 0 or empty message / halt unanswered for %d ms; plus guard-model probes compared "
                     "with the Lean driver. distinct_nontrivial = distinct (program, traits, input) that parsed and executed >= 3 statements" % HARD_MS,
                     samples, extra_cov=cov,
                     trusted=["memory safety of the unmodelled interpreter is exhibited only by the sanitizer campaign (sampling); the theorems cover the guards",
-                             "translators extract/{fnc_dispatch,loops,div_sites,flag_sites}.py + clang-14 AST (fail closed)",
+                             "translators extract/{fnc_dispatch,loops,div_sites,flag_sites,stack_sites}.py + clang-14 AST (fail closed)",
                              "argument spec r/R => HAWK_VAL_REF (run.c __eval_call), valtoint/valtonum results in range",
                              "pipes restricted to an allow-list, files to the scratch directory, sys::/ffi::/sed:: excluded (harness safety)"],
                     assumptions=["string lengths < 2^63", "halt requests are repeated (as a user pressing ^C again): hawk_rtx_loop clears a request made before it starts"])
